@@ -7,6 +7,13 @@ Driver commands of the C20 area (stateless):
 * `rng-float s0 s1 s2 count`  → `b_1 … b_count | s0' s1' s2'`  (`tau_rand`, float32 bit patterns)
 * `rejsample n_samples pool_size s0 s1 s2` → `j_1 … j_n | s0' s1' s2'`, or `diverged` when 10^6 draws did not suffice
 
+* `altloop <fuel> | idx0… | idx1… | round | round | …` — the loop of `find_component_connection_edge` (with its cycle
+  guard) replayed over a recorded search table; a round is
+  `side ; queries… ; candidates… ; ncols ; inds (row-major, one row per query) ; dists (float32 bits, row-major)`
+  (the search result after `deheap_sort`).  The model's search is the table lookup on (side, queries, candidates).
+  → `rounds fired | side idx0… ; idx1… ; ch0 ch1 | … (one key per search performed) | a b dist` or `missing <round>`
+  when the model asks for a search the table does not contain, `running` when `fuel` searches did not suffice.
+
 State words are `int64` values (any decimal integer is reduced like `astype(int64)`).
 -/
 namespace Pynn.Drv
@@ -22,6 +29,48 @@ def iterRng {α : Type} (f : RngState → α × RngState) : Nat → RngState →
 
 def rejFuel : Nat := 1000000
 
+structure Round where
+  side : Bool
+  q : List Nat
+  c : List Nat
+  rows : List (List (Int × F))      -- one sorted result row per query point
+
+def chunks {α : Type} (n : Nat) : Nat → List α → List (List α)
+  | 0, _ => []
+  | fuel + 1, l => if l.isEmpty || n = 0 then [] else l.take n :: chunks n fuel (l.drop n)
+
+def pRound (sec : List String) : Option Round :=
+  match splitAt ";" sec with
+  | [[sd], q, c, [nc], inds, dists] =>
+    if !(sd == "0" || sd == "1") || !allNats q || !allNats c || !allNats [nc] || !allInts inds || !allNats dists then none else
+    let nc := pNat nc
+    if inds.length ≠ q.length * nc || dists.length ≠ inds.length || nc = 0 then none else
+    let cells := (inds.map pInt).zip (dists.map pF)
+    some ⟨sd == "1", q.map pNat, c.map pNat, chunks nc q.length cells⟩
+  | _ => none
+
+def firstCol (r : Round) : List Nat := r.rows.map (fun row => match row with | (v, _) :: _ => v.toNat | [] => 0)
+
+def lookupRound (tab : List Round) (side : Bool) (q c : List Nat) : Option Round :=
+  tab.find? (fun r => r.side == side && r.q == q && r.c == c)
+
+def tableSearch (tab : List Round) : Bool → List Nat → List Nat → List Nat := fun side q c =>
+  match lookupRound tab side q c with
+  | some r => firstCol r
+  | none => []
+
+def keyQC (k : AltKey) : Bool × List Nat × List Nat :=
+  if k.1.side = false then (false, k.1.idx0, k.1.idx1) else (true, k.1.idx1, k.1.idx0)
+
+/-- the keys at the top of the `r` iterations performed -/
+def keyPath (srch : Bool → List Nat → List Nat → List Nat) : Nat → AltKey → List AltKey
+  | 0, _ => []
+  | r + 1, k => k :: keyPath srch r (altKeyStep srch k)
+
+def showKey (k : AltKey) : String :=
+  (if k.1.side then "1 " else "0 ") ++ showNats k.1.idx0 ++ " ; " ++ showNats k.1.idx1 ++ " ; " ++
+    (if k.1.ch0 then "1" else "0") ++ " " ++ (if k.1.ch1 then "1" else "0")
+
 def handleConnect : Handler
   | ["rng-int", a, b, c, n] =>
     if !allInts [a, b, c] || n.toNat?.isNone then some "bad-op" else
@@ -36,6 +85,32 @@ def handleConnect : Handler
     match rejectionSampleRng (pNat ns) (pNat pool) rejFuel (RngState.ofInts (pInt a) (pInt b) (pInt c)) with
     | none => some "diverged"
     | some (out, s) => some (showNats out ++ " | " ++ showState s)
+  | "altloop" :: rest =>
+    match splitAt "|" rest with
+    | [fuel] :: i0 :: i1 :: rounds =>
+      if !allNats [fuel] || !allNats i0 || !allNats i1 || i0.isEmpty || i1.isEmpty then some "bad-op" else
+      match rounds.mapM pRound with
+      | none => some "bad-op"
+      | some tab =>
+        let srch := tableSearch tab
+        let idx0 := i0.map pNat
+        let idx1 := i1.map pNat
+        match altLoopSeen srch (pNat fuel) idx0 idx1 with
+        | none => some "running"
+        | some (_, fired, r) =>
+          let path := keyPath srch r (⟨idx0, idx1, false, true, true⟩, true, true)
+          let looked := path.map (fun k => let t := keyQC k; lookupRound tab t.1 t.2.1 t.2.2)
+          match looked.findIdx? (·.isNone) with
+          | some i => some ("missing " ++ toString i)
+          | none =>
+            let b0 : Best F := ⟨finf, (idx0.headD 0 : Nat), (idx1.headD 0 : Nat)⟩
+            let best := (path.zip looked).foldl (fun b kr =>
+              match kr.2 with
+              | some rd => bestRound ((keyQC kr.1).2.1.map (fun (x : Nat) => (x : Int)) |>.zip rd.rows) b
+              | none => b) b0
+            some (toString r ++ " " ++ (if fired then "1" else "0") ++ " | " ++ " | ".intercalate (path.map showKey) ++
+                  " | " ++ toString best.a ++ " " ++ toString best.b ++ " " ++ showF best.dist)
+    | _ => some "bad-op"
   | "rng-int" :: _ => some "bad-op"
   | "rng-float" :: _ => some "bad-op"
   | "rejsample" :: _ => some "bad-op"
